@@ -1,4 +1,5 @@
 import M3d.Lemmas.Joined
+import M3d.Lemmas.BoxExact
 import M3d.Lemmas.KD
 import M3d.Lemmas.KNN
 import M3d.Lemmas.MDF
@@ -9,7 +10,7 @@ import Mathlib.Algebra.Order.Field.Rat
 # C08 — Spatial indexes return exactly the brute-force answer
 
 Property theorems only.  Models: `M3d/Model/{Prune,Box,Spatial}.lean`; lemmas:
-`M3d/Lemmas/{Prune,Box,Joined,KD,KNN,MDF,Group}.lean`.
+`M3d/Lemmas/{Prune,Box,BoxExact,Joined,KD,KNN,MDF,Group}.lean`.
 
 Conventions: `K` is an arbitrary linear ordered field (ℝ, ℚ, …).  A leaf of a hierarchy is a
 record of functions (`Leaf3`, `Leaf2`); the single hypothesis on leaves is `LeafSound3/2`: whatever
@@ -95,6 +96,55 @@ theorem slab_prefilter_sound2 (o d : V2 K) (b : Box2 K) (t : K) (ht : 0 ≤ t)
     (h : b.Contains (o.along d t)) :
     rayAdmits (rayBounds2 o d b) = true ∧ (t ≤ 1 → segAdmits (rayBounds2 o d b) = true) :=
   ⟨rayAdmits_sound2 o d b t ht h, fun h1 => segAdmits_sound2 o d b t ht h1 h⟩
+
+/-- **The slab test is exact on non-empty boxes, for every direction vector**: `rayCollisionWithBounds` +
+`maxFrac >= minFrac && maxFrac >= 0` (`JoinedCollider.rayCollidesWithBounds`, the hit test of
+`Rect.FirstRayCollision` used by `render3d.FilteredObject`) answers "possible" if AND ONLY IF some `t ≥ 0` has
+the ray point `o + t·d` in the box.  No assumption on `d`: zero components, components of very different
+magnitude, directions far shorter or longer than 1 (a `Ray`'s direction need not be normalised).  The
+correspondence kinds `slab3/slabd3` compare the real function with this model, so a deviation on a box with
+`min ≤ max` is a ray that meets the box and is pruned, or one that misses it and is descended into. -/
+theorem slab_prefilter_exact (o d : V3 K) (b : Box3 K) (hb : b.NonEmpty) :
+    rayAdmits (rayBounds3 o d b) = true ↔ ∃ t, 0 ≤ t ∧ b.Contains (o.along d t) :=
+  rayAdmits_iff3 o d b hb
+theorem slab_prefilter_exact2 (o d : V2 K) (b : Box2 K) (hb : b.NonEmpty) :
+    rayAdmits (rayBounds2 o d b) = true ↔ ∃ t, 0 ≤ t ∧ b.Contains (o.along d t) :=
+  rayAdmits_iff2 o d b hb
+
+/-- **The segment prefilter of `joinedMultiCollider.SegmentCollision` is exact**: with `d = s[1] - s[0]` it
+answers "possible" iff some point `o + t·d`, `0 ≤ t ≤ 1`, of the segment lies in the (non-empty) box —
+segments of every length, arbitrarily short ones included. -/
+theorem slab_segment_prefilter_exact (o d : V3 K) (b : Box3 K) (hb : b.NonEmpty) :
+    segAdmits (rayBounds3 o d b) = true ↔ ∃ t, 0 ≤ t ∧ t ≤ 1 ∧ b.Contains (o.along d t) :=
+  segAdmits_iff3 o d b hb
+theorem slab_segment_prefilter_exact2 (o d : V2 K) (b : Box2 K) (hb : b.NonEmpty) :
+    segAdmits (rayBounds2 o d b) = true ↔ ∃ t, 0 ≤ t ∧ t ≤ 1 ∧ b.Contains (o.along d t) :=
+  segAdmits_iff2 o d b hb
+
+/-- **The pruning decision for a ray does not depend on the length of its direction vector**: for every
+`s > 0` the slab test gives the same answer for `d` and `s·d` (so a hierarchy may not treat direction
+components below some absolute threshold as "parallel": un-normalised, very short directions must prune
+exactly like unit directions). -/
+theorem slab_direction_length_irrelevant (o d : V3 K) (b : Box3 K) (hb : b.NonEmpty) (s : K) (hs : 0 < s) :
+    rayAdmits (rayBounds3 o (V3.smul s d) b) = rayAdmits (rayBounds3 o d b) :=
+  rayAdmits_scale3 o d b hb s hs
+theorem slab_direction_length_irrelevant2 (o d : V2 K) (b : Box2 K) (hb : b.NonEmpty) (s : K) (hs : 0 < s) :
+    rayAdmits (rayBounds2 o (V2.smul s d) b) = rayAdmits (rayBounds2 o d b) :=
+  rayAdmits_scale2 o d b hb s hs
+
+/-- Non-vacuity: the unit cube is non-empty; the ray from `(1/2, 1/2, -1)` with the un-normalised direction
+`(0, 0, 2⁻³⁰)` (every component far below `1e-8`, origin outside the z-slab) is admitted — it enters the cube at
+`t = 2³⁰` — and so is the short segment from `(1/2, 1/2, -2⁻³¹)` with that direction, while the same ray pointing
+away is rejected. -/
+example :
+    let b : Box3 Rat := ⟨⟨0, 0, 0⟩, ⟨1, 1, 1⟩⟩
+    b.NonEmpty ∧ rayAdmits (rayBounds3 (⟨1/2, 1/2, -1⟩ : V3 Rat) ⟨0, 0, 1/1073741824⟩ b) = true ∧
+      segAdmits (rayBounds3 (⟨1/2, 1/2, -1/2147483648⟩ : V3 Rat) ⟨0, 0, 1/1073741824⟩ b) = true ∧
+      rayAdmits (rayBounds3 (⟨1/2, 1/2, -1⟩ : V3 Rat) ⟨0, 0, -1/1073741824⟩ b) = false := by
+  intro b
+  refine ⟨?_, by decide +kernel, by decide +kernel, by decide +kernel⟩
+  simp only [b, Box3.NonEmpty]
+  norm_num
 
 /-- **Sphere / box prefilter is sound, touching counts** (`sphereTouchesBounds`, `circleTouchesBounds`). -/
 theorem sphere_prefilter_sound (c p : V3 K) (r : K) (b : Box3 K) (hp : b.Contains p)
